@@ -77,7 +77,18 @@ func one(r *rep.Report, rng *prng.R, orig *p9p.Fcall, msize int, live bool) {
 	c := sx.L(sx.Sym("write"), sx.I(int64(msize)), sx.Bool(live), wiregen.FcallSexp(fc))
 
 	conn := lconn.NewScript(nil)
-	ch := p9p.NewChannel(conn, msize)
+	// the msize is reached directly or through SetMSize from a larger / smaller one, as negotiation does
+	var ch p9p.Channel
+	switch rng.Intn(3) {
+	case 0:
+		ch = p9p.NewChannel(conn, msize)
+	case 1:
+		ch = p9p.NewChannel(conn, msize+rng.Pick(1, 4, 100, 65536))
+		ch.SetMSize(msize)
+	default:
+		ch = p9p.NewChannel(conn, msize/2)
+		ch.SetMSize(msize)
+	}
 	ctx, cancel := context.WithCancel(context.Background())
 	if !live {
 		cancel()
